@@ -1024,6 +1024,25 @@ pub fn open_handle_probes<V: VirtualFileSystem>(backend: &str, fs: &V, dir: &str
         if !fin.starts_with('0') || !fin.ends_with("bb") {
             v.push((format!("{} two append handles · the later handle's bytes are not at the end / the first byte changed", backend), format!("write_all(f, \"0\"); h1 = append(f); h2 = append(f); h1 writes \"aaa\", drop; h2 writes \"bb\", drop -> read_all(f) = {:?}", fin)));
         }
+        // (5) the file's content is replaced while an append handle is open: what the handle leaves behind ends
+        // with the handle's bytes and starts with one of the two contents it could have started from (its own
+        // snapshot, or the replacement) - never with a mixture cut at the old length
+        for (old, newc) in [("old", "REPLACED-AND-LONGER"), ("a longer old content", "new"), ("same", "SAME")] {
+            fs.write_all(&f, old.as_bytes()).map_err(e)?;
+            let mut h = fs.append(&f).map_err(e)?;
+            fs.write_all(&f, newc.as_bytes()).map_err(e)?;
+            h.write_all(b"+tail").map_err(|x| x.to_string())?;
+            h.flush().map_err(|x| x.to_string())?;
+            drop(h);
+            let fin = rd(&f)?;
+            let ok = fin.ends_with("+tail") && (fin == format!("{}+tail", old) || fin == format!("{}+tail", newc));
+            if !ok {
+                v.push((
+                    format!("{} append handle · content replaced while the handle is open · result is a mixture", backend),
+                    format!("write_all(f, {:?}); h = append(f); write_all(f, {:?}); h writes \"+tail\", flush, drop -> read_all(f) = {:?}", old, newc, fin),
+                ));
+            }
+        }
         // (4) a handle that outlives its file: removing or moving the file while the handle is open and dropping
         // the handle afterwards does not bring the old name back (a removed file stays removed; a moved file
         // does not reappear at its source)
